@@ -4,18 +4,18 @@ From MD Require Import Base.Py Base.Opt Model.Ruler Model.Instance
 
 (* ---- induction principle for the nested [mop] ---------------------------- *)
 Section mop_ind.
-Variable P : mop -> Prop.
-Hypothesis HEnable : forall n i, P (MEnable n i).
-Hypothesis HDisable : forall n i, P (MDisable n i).
-Hypothesis HRuler : forall c o, P (MRuler c o).
-Hypothesis HConfigure : forall p u, P (MConfigure p u).
-Hypothesis HSetItem : forall k v, P (MSetItem k v).
-Hypothesis HSetOptions : forall o, P (MSetOptions o).
-Hypothesis HAdd : forall n f b, P (MAddRenderRule n f b).
-Hypothesis HActive : P MActive.
-Hypothesis HAll : P MAll.
-Hypothesis HOptions : P MOptions.
-Hypothesis HReset : forall body r, Forall P body -> P (MReset body r).
+Context (P : mop -> Prop).
+Context (HEnable : forall n i, P (MEnable n i)).
+Context (HDisable : forall n i, P (MDisable n i)).
+Context (HRuler : forall c o, P (MRuler c o)).
+Context (HConfigure : forall p u, P (MConfigure p u)).
+Context (HSetItem : forall k v, P (MSetItem k v)).
+Context (HSetOptions : forall o, P (MSetOptions o)).
+Context (HAdd : forall n f b, P (MAddRenderRule n f b)).
+Context (HActive : P MActive).
+Context (HAll : P MAll).
+Context (HOptions : P MOptions).
+Context (HReset : forall body r, Forall P body -> P (MReset body r)).
 
 Fixpoint mop_ind' (o : mop) : P o :=
   match o with
